@@ -57,6 +57,27 @@ theorem archop_cmp_spec (op : Nat) (a b : Str) (re : Option Bool) (ha : a ≠ []
   | 3 => cases re <;> simp
   | n + 4 => simp
 
+/-- The patterns the feeds write are plain alternations of literals
+    (`aarch64|ppc64le|s390x|x86_64`).  For these the model does not take
+    `regexp`'s verdict as an input but computes it: `MatchString` is an
+    unanchored search, so the package architecture matches iff one of the
+    alternatives occurs in it as a substring — `ppc64le` does, `ppc64` does not. -/
+theorem archop_literal_alternation (a b : Str) (re : Option Bool) (ha : a ≠ []) (hb : b ≠ [])
+    (hl : isLiteralAlt b = true) :
+    archCmp 3 a b (reVerdict b a re) = true ↔
+      ∃ alt ∈ altMatch.splitOnBar b, ∃ pre suf, a = pre ++ alt ++ suf := by
+  simp only [archCmp, ha, hb, if_false, reVerdict, hl, if_true, altMatch, List.any_eq_true, isInfix_iff]
+
+/-- A package architecture that is only a fragment of an alternative does not
+    match (and a pattern that is a fragment of the architecture does). -/
+theorem archop_literal_alternation_examples :
+    archCmp 3 "ppc64".toList "x86_64|ppc64le".toList (reVerdict "x86_64|ppc64le".toList "ppc64".toList none) = false ∧
+    archCmp 3 "s390".toList "aarch64|ppc64le|s390x|x86_64".toList
+      (reVerdict "aarch64|ppc64le|s390x|x86_64".toList "s390".toList none) = false ∧
+    archCmp 3 "ppc64le".toList "x86_64|ppc64le".toList (reVerdict "x86_64|ppc64le".toList "ppc64le".toList none) = true ∧
+    archCmp 3 "x86_64".toList "x86".toList (reVerdict "x86".toList "x86_64".toList none) = true := by
+  decide
+
 /-! ### The go-rpm-version matchers: aws, oracle, suse, photon, rhel, rhcc -/
 
 /-- aws: with a fix `F`, reported iff the package version is strictly below `F`
@@ -585,6 +606,44 @@ theorem dbside_reported_iff_in_range (r : NRange) (nv : NVersion) (p : Pkg) (v :
   constructor
   · rintro ⟨⟨h1, h2⟩, h3, h4⟩; exact ⟨h1, h2, h3, h4⟩
   · rintro ⟨h1, h2, h3, h4⟩; exact ⟨⟨h1, h2⟩, h3, h4⟩
+
+/-- A package listed in several `IndexRecord`s (one per repository /
+    distribution): without an authoritative version filter the advisory is
+    listed once per record whose `Vulnerable` says yes — in particular it is
+    reported iff **some** record's verdict is positive, whichever comes first. -/
+theorem controller_counts_positive_records (hit : Bool) (outs : List Out) (hne : outs ≠ [])
+    (hok : ∀ o ∈ outs, ∃ b, o = .ok b) :
+    controllerMatch false false hit outs = .count (outs.countP (· = .ok true)) := by
+  have : outs.isEmpty = false := by cases outs <;> simp_all
+  simp [controllerMatch, this, filterAll_ok outs 0 hok]
+
+theorem controller_reports_iff_some_record (hit : Bool) (outs : List Out) (hne : outs ≠ [])
+    (hok : ∀ o ∈ outs, ∃ b, o = .ok b) :
+    controllerMatch false false hit outs ≠ .count 0 ↔ Out.ok true ∈ outs := by
+  rw [controller_counts_positive_records hit outs hne hok]
+  simp only [ne_eq, MatchOut.count.injEq]
+  rw [List.countP_eq_zero]
+  constructor
+  · intro h
+    apply Classical.byContradiction
+    intro hn
+    apply h
+    intro o ho
+    simp only [decide_eq_true_eq]
+    intro e; subst e; exact hn ho
+  · intro h hz
+    have := hz _ h
+    simp at this
+
+/-- The order of the records does not matter. -/
+theorem controller_order_independent (hit : Bool) (outs outs' : List Out) (hp : outs.Perm outs')
+    (hne : outs ≠ []) (hok : ∀ o ∈ outs, ∃ b, o = .ok b) :
+    controllerMatch false false hit outs' = controllerMatch false false hit outs := by
+  have hne' : outs' ≠ [] := by
+    intro e; subst e; exact hne (List.Perm.eq_nil hp)
+  have hok' : ∀ o ∈ outs', ∃ b, o = .ok b := fun o ho => hok o (hp.symm.subset ho)
+  rw [controller_counts_positive_records hit outs hne hok, controller_counts_positive_records hit outs' hne' hok',
+    hp.countP_eq]
 
 /-- rhcc: the range test only pre-filters (not authoritative); a hit is still
     subject to `Vulnerable`. -/
